@@ -240,6 +240,7 @@ fn continuation_ops(seed: u64, model: &Model, avoid: &[String]) -> Vec<Op> {
     k.n_ops = rng.range(1, 3) as usize;
     k.w_top = [1, 0, 0, 0, 0, 0, 0];
     k.max_live_nodes = model.g.nodes.len() + 3;
+    k.big_values = false;
     let mut ops = crate::l1::gen_history_from(&mut rng, &k, model);
     let may_close = !avoid.iter().any(|a| a == "label_ops_with_checkpoint");
     ops.push(if may_close && rng.chance(0.3) { Op::CloseReopen } else { Op::DropReopen });
